@@ -115,7 +115,17 @@ def r07b(model: Model, rr: RuleResult):
 def r07c(model: Model, rr: RuleResult):
     _r02d_rule(model, rr)
     fi = model.func("svg", "_picosvg_docs")
-    sk = [st for st in ast.walk(fi.node) if isinstance(st, ast.If) and norm(st.test) == "len(root) == 0" and any(isinstance(b, ast.Continue) for b in st.body)]
+    sk = [st for st in ast.walk(fi.node) if isinstance(st, ast.If) and norm(st.test) in ("len(root) == 0", "len(root) <= 0", "len(root) < 1", "not len(root)") and any(isinstance(b, ast.Continue) for b in st.body)]
+    if not sk:
+        # the same thing as a condition around the append
+        from ..guards import canon_facts as _cf7
+        dcfg = cfg_of(fi)
+        app = [c for c in calls_in(fi) if callee_tail(c) == "append" and "doc_list" in norm(c.func.value)]
+        want = _cf7(dcfg, dcfg.node_for(sk[0].body[0])) if sk else None
+        for c in app:
+            fs = _cf7(dcfg, dcfg.node_for(c))
+            if any(("len(root)" in t) and ((("== 0" in t) and pol is False) or (("> 0" in t or "!= 0" in t) and pol is True)) for t, pol in fs):
+                sk = [c]
     if sk:
         rr.ok("empty documents are skipped")
     else:
@@ -128,8 +138,10 @@ def r07c(model: Model, rr: RuleResult):
         rr.bad(fi, fi.node, "gradient id cache is not reset per document: a fill could reference a gradient defined in another document", construct="_picosvg_docs: gradient_ids reset")
     for fn in ("_define_linear_gradient", "_define_radial_gradient"):
         f2 = model.func("svg", fn)
-        ids = [st for st in walk_body(f2) if isinstance(st, ast.Assign) and "gradient.attrib['id']" in " ".join(norm(t) for t in st.targets)]
-        sub = [st for st in walk_body(f2) if isinstance(st, ast.Assign) and isinstance(st.value, ast.Call) and norm(st.value.func) == "etree.SubElement" and norm(st.value.args[0]) == "svg_defs"]
+        ids = [st for st in walk_body(f2) if isinstance(st, ast.Assign) and any(norm(t).endswith(".attrib['id']") for t in st.targets)]
+        el_names = {norm(t)[:-len(".attrib['id']")] for st in ids for t in st.targets if norm(t).endswith(".attrib['id']")}
+        sub = [st for st in walk_body(f2) if isinstance(st, ast.Assign) and isinstance(st.value, ast.Call) and norm(st.value.func) == "etree.SubElement" and norm(st.value.args[0]) == "svg_defs"
+               and any(norm(t) in el_names for t in st.targets)]
         if ids and sub and norm(ids[0].value) == "f'g{len(svg_defs)}'":
             c = cfg_of(f2)
             if c.dominates(c.node_for(sub[0]), c.node_for(ids[0])):
@@ -401,7 +413,12 @@ def r14a(model: Model, rr: RuleResult):
     prets = [st for st in walk_body(p) if isinstance(st, ast.Return) and st.value is not None]
     got = [resolved_text(pcfg, pcfg.node_for(st), st.value, p) for st in prets]
     cp, hp = p.params[0], p.params[1]
-    if got == [f"({hp}, {cp}.ascender - {cp}.descender)"]:
+    import re as _re14
+    m_ = _re14.fullmatch(r"([A-Za-z_]\w*)\((?:\w+=)?(.+?), (?:\w+=)?(.+)\)", got[0]) if len(got) == 1 else None
+    rec_fields = None
+    if m_ and m_.group(1) in p.module.classes and (m_.group(2), m_.group(3)) == (hp, f"{cp}.ascender - {cp}.descender"):
+        rec_fields = [f_ for f_ in p.module.classes[m_.group(1)].field_names()][:2]
+    if got == [f"({hp}, {cp}.ascender - {cp}.descender)"] or rec_fields:
         rr.ok("_pixels_to_funits = (bitmap pixel height, ascender - descender)")
     elif len(got) == 1 and got[0].startswith(f"({hp}, ") and f"{cp}.ascender - {cp}.descender" in got[0]:
         rr.bad(p, prets[0], f"the em height used for bitmaps is {got[0].split(', ', 1)[1][:-1]}, not ascender - descender: ppem, bearings and the pixel advance are scaled by a "
@@ -409,7 +426,16 @@ def r14a(model: Model, rr: RuleResult):
     else:
         rr.bad_shape(p, p.node, f"pixel/unit ratio is {got}, expected (bitmap height, ascender - descender)", construct="_pixels_to_funits body")
     pp = model.func("bitmap_tables", "_ppem")
-    if norm(pp.body[-1]) == "return round(config.upem * pixels / funits)":
+    ptxt = norm(pp.body[-1])
+    ok_pp = ptxt == "return round(config.upem * pixels / funits)"
+    if not ok_pp:
+        mm = _re14.fullmatch(r"return round\(config\.upem \* (\w+)(\.\w+|\[0\]) / (\w+)(\.\w+|\[1\])\)", ptxt)
+        if mm and mm.group(1) == mm.group(3):
+            src_ = [d.value for d in cfg_of(pp).reaching(cfg_of(pp).node_for(pp.body[-1]), mm.group(1)) if d.value is not None]
+            from_helper = bool(src_) and all(isinstance(v, ast.Call) and callee_tail(v) == "_pixels_to_funits" for v in src_)
+            a1, a2 = mm.group(2), mm.group(4)
+            ok_pp = from_helper and ((a1, a2) == ("[0]", "[1]") or (rec_fields is not None and len(rec_fields) == 2 and (a1, a2) == ("." + rec_fields[0], "." + rec_fields[1])))
+    if ok_pp:
         rr.ok("_ppem = round(upem x pixels / funits)")
     else:
         rr.bad(pp, pp.node, "ppem is not round(upem x bitmap height / em height)", construct=f"_ppem: {short(pp.body[-1])}")
